@@ -23,7 +23,15 @@ static int64_t R(Rng &r) { return (int64_t)(r.next() >> 2); }
 static std::string hkey(Rng &r) {
     static const char *ks[] = {"a", "b", "A", "B", "ab", "aB", "", "k1", "name", "Name", "ck", "CK", "c", "z"};
     if (r.chance(1, 10)) return gen_string(r, false, false, 5);
-    return ks[r.below(14)];
+    if (r.chance(1, 6)) {  // every letter, in either case: case folding must work for the whole alphabet
+        std::string k;
+        int n = (int)r.range(1, 3);
+        for (int i = 0; i < n; i++) k.push_back((char)((r.chance(1, 2) ? 'a' : 'A') + (r.chance(1, 3) ? 25 - (int)r.below(3) : (int)r.below(26))));
+        return k;
+    }
+    std::string k = ks[r.below(14)];
+    if (r.chance(1, 5)) for (auto &c : k) if (r.chance(1, 2)) { if (c >= 'a' && c <= 'z') c = (char)(c - 32); else if (c >= 'A' && c <= 'Z') c = (char)(c + 32); }
+    return k;
 }
 static bool g_casekeys = false;
 static std::string ukey(Rng &r) {  // keys for Utils documents
@@ -144,7 +152,7 @@ Plan gen_plan(const std::string &prop, uint64_t seed, int64_t run) {
     } else if (prop == "C07") {
         common_knobs(p, r, 0);
         auto mix = swarm(cat({CREATE, EDIT, REFS, REFS, {{"parse", 4}, {"print", 4}, {"dup", 5}, {"delete", 5}, {"q_key", 1}, {"refuse", 2}, {"add_obj_cs", 4}}}), r);
-        if (r.chance(1, 3)) { p.knobs["faults"] = 1; mix.push_back({"arm", 6}); mix.push_back({"print", 6}); mix.push_back({"parse", 4}); mix.push_back({"dup", 4}); }
+        if (r.chance(1, 3)) { p.knobs["faults"] = 1; mix.push_back({"arm", 8}); mix.push_back({"print", 6}); mix.push_back({"parse", 4}); mix.push_back({"dup", 4}); mix.push_back({"set_valuestring", 6}); mix.push_back({"replace_key", 3}); mix.push_back({"new_string", 3}); }
         add_steps(p, CREATE, r, 3);
         add_steps(p, mix, r, len_range(r, 5, 60));
     } else if (prop == "C14") {
@@ -152,7 +160,7 @@ Plan gen_plan(const std::string &prop, uint64_t seed, int64_t run) {
         p.knobs["hooks"] = 0;
         int epochs = (int)r.range(2, 4);
         auto mix = swarm(cat({CREATE, EDIT, {{"parse", 6}, {"print", 6}, {"dup", 3}, {"delete", 3}, {"sort", 2}, {"ptr_find", 3}, {"patch_gen", 3}, {"merge_gen", 2}, {"merge_apply", 2}, {"pop", 4}, {"patch_apply", 2}, {"add_ref_arr", 1}, {"add_obj_cs", 1}, {"compare", 1}, {"utils_ci", 3}}}), r);
-        if (r.chance(1, 3)) { p.knobs["faults"] = 1; mix.push_back({"arm", 8}); mix.push_back({"print", 8}); mix.push_back({"parse", 4}); }
+        if (r.chance(1, 3)) { p.knobs["faults"] = 1; mix.push_back({"arm", 10}); mix.push_back({"print", 8}); mix.push_back({"parse", 4}); mix.push_back({"set_valuestring", 6}); mix.push_back({"new_string", 3}); }
         for (int e = 0; e < epochs; e++) {
             p.steps.push_back(make_step("hooks", r));
             add_steps(p, {{"parse", 3}, {"new_object", 1}, {"new_array", 1}}, r, 2, true);
@@ -165,7 +173,7 @@ Plan gen_plan(const std::string &prop, uint64_t seed, int64_t run) {
         auto stage = swarm(cat({CREATE, EDIT, {{"parse", 10}, {"dup", 2}, {"new_number", 6}, {"new_string", 6}, {"addh", 6}, {"bulk_double", 2}, {"set_number", 3}, {"set_valuestring", 2}}}), r);
         if (prop == "C05") stage.push_back({"poke_nan", 2});
         if (r.chance(1, prop == "C09" ? 40 : 12)) p.steps.push_back(make_step("build_deep", r));
-        if (prop != "C09" && r.chance(1, 40)) p.steps.push_back(make_step("build_wide", r));
+        if (prop != "C09" && r.chance(1, 15)) p.steps.push_back(make_step("build_wide", r));
         int rounds = (int)r.range(1, 4);
         for (int k = 0; k < rounds; k++) {
             add_steps(p, stage, r, len_range(r, 2, 14));
